@@ -2,9 +2,11 @@
    Statements only; proofs in Proofs/ChannelProofs.v.  wf_fcall is the property's premise that the
    message is wire-representable (encoded length below 2^32); msize ranges over [24, 2^32). *)
 From Coq Require Import List NArith ZArith Bool.
-From P9 Require Import Base.Res Base.Bytes Model.WireTypes Model.Spec9P Model.Wire Model.Channel Proofs.ChannelProofs.
+From Coq Require Import String.
+From P9 Require Import Base.Res Base.Bytes Model.WireTypes Model.Spec9P Model.Wire Model.Channel Proofs.ChannelProofs Gen.GenChannel Gen.GenConsts.
 Import ListNotations.
 Open Scope N_scope.
+Open Scope list_scope.
 
 (* 1. Every write either emits exactly one complete frame whose size field equals its total length,
       which is at most msize, or emits nothing and reports by how many bytes the message is too long
@@ -49,6 +51,15 @@ Theorem C02_other : forall msize f, wf_fcall f = true -> fc_type f <> T_Tread ->
   exists k, write_fcall msize true f = ([], WOverflow k).
 Proof. exact write_other. Qed.
 Print Assumptions C02_other.
+
+(* 0. The shape of maybeTruncate in the CURRENT source (regenerated on every run) is the one the model
+      transcribes: exactly Tread and Twrite are special-cased, everything else takes the default arm,
+      and both ReadFcall and WriteFcall go through it; the frame header is 4 bytes. *)
+Theorem C02_structure :
+  gen_truncate_arms = ["MessageTread"%string; "MessageTwrite"%string] /\ gen_truncate_has_default = true /\
+  gen_readfcall_truncates = true /\ gen_writefcall_truncates = true /\ c_channelMessageHeaderSize = 4.
+Proof. repeat split; reflexivity. Qed.
+Print Assumptions C02_structure.
 
 (* non-vacuity: the Tread clamp on its uint32 wrap boundary, and an over-long Twrite *)
 Example C02_tread_wrap_example :
